@@ -20,6 +20,7 @@ VARIABLE l
 TsOf(c) == IF "ts" \in DOMAIN c THEN c.ts ELSE TS
 IdxStrs == {"#" \o ToString(i) : i \in 0..64}
 Keys(path) == SelectSeq(path, LAMBDA s : s \notin IdxStrs)
+Range(s) == {s[i] : i \in 1..Len(s)}
 
 \* all field nodes with response key `key` in a selection sequence, fragments followed, directives honoured
 RECURSIVE FieldsWithKey(_, _, _, _, _)
@@ -51,6 +52,24 @@ NamesIn(C, sels, i, seen) ==
                    ELSE NamesIn(C, Frag(C, s.name).sels, 1, seen \cup {s.name})
        IN here \cup NamesIn(C, sels, i + 1, seen)
 
+\* all field nodes directly in a selection sequence, fragments followed, directives honoured
+RECURSIVE AllFields(_, _, _, _)
+AllFields(C, sels, i, seen) ==
+  IF i > Len(sels) THEN <<>>
+  ELSE LET s == sels[i]
+           here == IF ~ShouldInclude(C, s.dirs) THEN <<>>
+                   ELSE IF s.k = "field" THEN <<s>>
+                   ELSE IF s.k = "inline" THEN AllFields(C, s.sels, 1, seen)
+                   ELSE IF s.name \in seen \/ ~HasFrag(C, s.name) THEN <<>>
+                   ELSE AllFields(C, Frag(C, s.name).sels, 1, seen \cup {s.name})
+       IN here \o AllFields(C, sels, i + 1, seen)
+\* 6.4.1 for the views: an argument given by a variable shows the supplied value, else the variable's default, else it is absent
+ArgPresent(C, a) == a.val.k # "var" \/ Supplied(C, a.val.name) \/ VarDef(C, a.val.name).hasDefault
+ArgValue(C, a) == IF a.val.k # "var" THEN a.val
+                  ELSE IF Supplied(C, a.val.name) THEN SuppliedVal(C, a.val.name) ELSE VarDef(C, a.val.name).default
+ExpectedArgs(C, n) == {[name |-> n.args[k].name, val |-> ArgValue(C, n.args[k])] : k \in {j \in 1..Len(n.args) : ArgPresent(C, n.args[j])}}
+ViewArgs(v) == {[name |-> v.args[k].name, val |-> v.args[k].val] : k \in 1..Len(v.args)}
+
 Log(c) == c.obs.log
 StartIdx(c) == {i \in 1..Len(Log(c)) : Log(c)[i].ev = "start"}
 \* fields resolved directly below the event at index i
@@ -76,7 +95,11 @@ EventOK(c, C, i, merged) ==
       below == ChildNames(c, i)
       sel == IF merged THEN UnionSel(c, i) ELSE SelNames(e)
       la == IF merged THEN UnionLa(c, i) ELSE LaNames(e)
-  IN /\ below \subseteq sel                                \* (1) selection-field view
+  IN /\ (~merged => \A n \in Range(AllFields(C, SelsAt(C, C.op.sels, Keys(e.path), 1), 1, {})) :
+                      \* every sub-field with arguments is reported with exactly its resolved arguments
+                      Len(n.args) > 0 => \E k \in 1..Len(e.view.sel) :
+                          e.view.sel[k].name = n.name /\ e.view.sel[k].alias = n.alias /\ ViewArgs(e.view.sel[k]) = ExpectedArgs(C, n))
+     /\ below \subseteq sel                                \* (1) selection-field view
      /\ below \subseteq la                                 \* (1) look-ahead view
      /\ (sel \ {"__typename"}) \subseteq allowed            \* (2)
      /\ la \subseteq allowed                                \* (2)
